@@ -165,7 +165,7 @@ def merged_dims_of_the_viewed_tensor(ctx, rep, rule: str) -> None:
                     f"merge_small_dims({x}.size(), self._param_group[MAX_PRECONDITIONER_DIM]) if self._param_group[USE_MERGE_DIMS] else {x}.size()",
                     f"merge_small_dims(tensor_shape={x}.size(), threshold=self._param_group[MAX_PRECONDITIONER_DIM]) if self._param_group[USE_MERGE_DIMS] else {x}.size()",
                 }
-                ok = txt in want
+                ok = A.tnorm(d) in {A.tnorm(w) for w in want}
                 detail = f"`{x}` is viewed with `{txt[:120]}`"
             n += 1
             rep.ob(rule, f"merged-dims-of-the-viewed-tensor:{short(fi.qual)}", ok, fi.loc(call), detail + "; documented: merge_small_dims(<that tensor>.size(), max_preconditioner_dim) if use_merge_dims else <that tensor>.size()", sample=True)
@@ -183,7 +183,7 @@ def split_structure(ctx, rep, rule: str) -> None:
     if ok:
         f = fs[0]
         tensor, size = fi.params[0], fi.params[1]
-        dom_ok = _norm(f.iter) == f"range({tensor}.dim())"
+        dom_ok = A.tnorm(f.iter) == f"range({tensor}.ndim)"
         init_ok = A.expanded(fi.node, f.init) == f"({tensor},)"
         # the step re-splits every piece so far along that dimension: tuple(s for t in $acc for s in torch.split(t, size, dim=$0))
         step = ast.parse(f.step.replace("$acc", "ACC__").replace("$0", "DIM__"), mode="eval").body
@@ -199,61 +199,15 @@ def split_structure(ctx, rep, rule: str) -> None:
     for fr in pts.frames_of(fi.qual):
         ret |= pts.tensors(fr.ret)
     rep.ob(rule, "multi_dim_split:returns-views", ret and ret <= {PARAM, GRAD}, fi.loc(), f"pieces share storage with the input tensor; points-to set over all call sites: {sorted(str(t[1]) for t in ret)}")
-    cl = repo.func(f"{UTILS}:compress_list")
-    rets = [n for n in A.walk_no_nested(cl.node) if isinstance(n, ast.Return)]
-    ok = len(rets) == 1 and _norm(rets[0].value) == f"tuple(compress({cl.params[0]}, {cl.params[1]}))"
-    asserts = [n for n in cl.node.body if isinstance(n, ast.Assert) and "len(" in _norm(n.test) and "==" in _norm(n.test)]
-    rep.ob(rule, "compress_list:order-preserving-selection", ok and len(asserts) == 1, cl.loc(), "compress_list returns tuple(itertools.compress(list, selector)) after asserting equal lengths (order preserving; never silently truncates)")
-
-
-def merge_rule_structure(ctx, rep, rule: str) -> None:
-    """merge_small_dims: drop size-1 dims (all ones -> [1]); fuse the next dim into the LAST merged dim iff their product
-    is <= threshold, else open a new dim; return a tuple.  Each clause is a necessary condition of the documented rule."""
-    repo = ctx.repo
-    fi = repo.func(f"{UTILS}:merge_small_dims")
-    shape, thr = fi.params[0], fi.params[1]
-    body = [x for x in fi.node.body if not (isinstance(x, ast.Expr) and isinstance(x.value, ast.Constant))]
-    loops = [n for n in body if isinstance(n, ast.For)]
-    ok_sq = ok_init = ok_fuse = ok_else = ok_ret = False
-    detail = []
-    sq = [n for n in body if isinstance(n, ast.Assign) and isinstance(n.value, ast.BoolOp) and isinstance(n.value.op, ast.Or)]
-    if len(sq) == 1:
-        v = sq[0].value
-        first, fallback = v.values[0], v.values[-1]
-        cmp1 = [c for c in ast.walk(first) if isinstance(c, ast.Compare) and isinstance(c.ops[0], ast.NotEq) and isinstance(c.comparators[0], ast.Constant) and c.comparators[0].value == 1]
-        ok_sq = bool(cmp1) and shape in A.names_in(first) and _norm(fallback) == "[1]"
-        sq_name = sq[0].targets[0].id
-    detail.append(f"size-1 dims dropped, all-ones shape becomes [1]: {ok_sq}")
-    if len(loops) == 1 and len(sq) == 1:
-        lp = loops[0]
-        nxt = lp.target.id if isinstance(lp.target, ast.Name) else None
-        ok_iter = _norm(lp.iter) == f"{sq_name}[1:]"
-        init = [n for n in body if isinstance(n, ast.Assign) and isinstance(n.value, ast.List) and len(n.value.elts) == 1 and _norm(n.value.elts[0]) == f"{sq_name}[0]"]
-        ok_init = len(init) == 1 and ok_iter
-        acc = init[0].targets[0].id if init else None
-        detail.append(f"accumulator starts with the first kept dim and the loop visits the remaining ones: {ok_init}")
-        ifs = [n for n in lp.body if isinstance(n, ast.If)]
-        if len(ifs) == 1 and acc and nxt:
-            t = ifs[0].test
-            prod = None
-            if isinstance(t, ast.Compare) and len(t.ops) == 1 and isinstance(t.ops[0], ast.LtE) and _norm(t.comparators[0]) == thr:
-                left = t.left.value if isinstance(t.left, ast.NamedExpr) else t.left
-                if isinstance(left, ast.BinOp) and isinstance(left.op, ast.Mult):
-                    prod = {_norm(left.left), _norm(left.right)}
-            last = f"{acc}[-1]"
-            uses_last = prod == {last, nxt}
-            stores = [n for n in ifs[0].body if (isinstance(n, ast.Assign) and _norm(n.targets[0]) == last) or (isinstance(n, ast.AugAssign) and _norm(n.target) == last and isinstance(n.op, ast.Mult) and _norm(n.value) == nxt)]
-            ok_fuse = uses_last and len(stores) == 1 and len(ifs[0].body) == 1
-            ok_else = len(ifs[0].orelse) == 1 and _norm(ifs[0].orelse[0]) == f"{acc}.append({nxt})"
-            detail.append(f"fuse test is `{last} * {nxt} <= {thr}` on the dim being grown: {uses_last}; the product is stored back into `{last}`: {len(stores) == 1}; otherwise the dim is appended unchanged: {ok_else}")
-        rets = [n for n in A.walk_no_nested(fi.node) if isinstance(n, ast.Return)]
-        ok_ret = len(rets) == 1 and acc is not None and _norm(rets[0].value) == f"tuple({acc})"
-    rep.ob(rule, "merge_small_dims:fuse-into-last-dim-iff-product<=threshold", ok_sq and ok_init and ok_fuse and ok_else and ok_ret, fi.loc(), "; ".join(detail) + f"; returns tuple(accumulator): {ok_ret}", sample=True)
+    # compress_list (order-preserving selection, length mismatch rejected) is decided by interpretation on concrete cases below
+    # (utility_semantics) — the earlier text match on `tuple(compress(...))` false-alarmed on an equivalent zip/filter spelling
 
 
 def run(ctx, rep) -> None:
     rep.rule("C05.5", "merge_small_dims: size-1 dims dropped; the next dim is fused into the last merged dim iff the product stays <= threshold, else a new dim is opened")
-    rep.attempt("merge_rule_structure", merge_rule_structure, ctx, rep, "C05.5")
+    from .common import utility_semantics as _us
+
+    rep.attempt("utility_semantics", _us, ctx, rep, "C05.5", ("merge_small_dims",))
     rep.rule("C05.1", "every parameter / gradient block shares storage with its parameter / gradient (view-only derivation)")
     rep.rule("C05.2", "parameter and gradient blocks come from the same recipe (stored merged dims, same split size)")
     rep.rule("C05.3", "parameters are written in place, only by update_params, through those views")
@@ -263,6 +217,7 @@ def run(ctx, rep) -> None:
     rep.attempt("merged_dims_of_the_viewed_tensor", merged_dims_of_the_viewed_tensor, ctx, rep, "C05.2")
     rep.attempt("who_may_write", who_may_write, ctx, rep, "C05.3", only_kinds=set(), include_params=True)
     rep.attempt("split_structure", split_structure, ctx, rep, "C05.4")
+    rep.attempt("utility_semantics", _us, ctx, rep, "C05.4", ("compress_list",))
     from .common import utility_semantics
 
     rep.rule("C05.7", "the pure utilities this property is built on compute what they document (concrete interpretation on small cases)")
